@@ -102,20 +102,27 @@ class Check(PropertyCheck):
     prop = "C09"
     design_ref = "§5 C09"
     level_text = ("Lean theorems (client_hooks_paired, connect_outcome_exactly_one, connected_then_disconnected_once, "
-                  "at_most_five_per_address, no_transports_after_return) about a program-counter model of "
-                  "ConnectionHandler's tasks (handle_client, one task per open_connection, the client connection handler, "
-                  "hook tasks) for EVERY schedule: any interleaving of task actions, every await returning normally, "
-                  "failing or delivering a cancellation, and any command list from the layer (induction over the "
-                  "schedule, invariants). The model is tied to the real ConnectionHandler running on a virtual-time "
-                  "asyncio loop by trace inclusion: every observable action of the real run (hook fired/returned, "
-                  "semaphore, connect, read, server_event with its commands, writer.close, task end, done-callback) is "
-                  "replayed in the compiled model, and model state = real state at every quiescent point.")
-    level_note = ("trusted: Lean kernel; asyncio semantics used as three stated scheduling facts (Semaphore admits < N "
-                  "holders; asyncio.wait returns after the awaited tasks' earlier done-callbacks ran; a done-callback runs "
-                  "after its task finished) — exercised on the virtual loop, not modelled; handle_client itself is assumed "
-                  "not to be cancelled from outside; no_transports_after_return assumes the layer opens no connection after "
-                  "handle_client has collected the transports to wait for (ghost flag lateOpen; real layers are not proved "
-                  "to obey it); GC of writers, real sockets and the event loop are out of scope; the tie is differential "
+                  "at_most_five_per_address, no_transports_after_return, wait_counts_callbacks, "
+                  "final_wait_covers_transports) about a program-counter model of ConnectionHandler's tasks (handle_client, one "
+                  "task per open_connection, the client connection handler, hook tasks) TOGETHER WITH an explicit small-step "
+                  "model of the asyncio machinery they rely on: per-task done-callback lists in registration order "
+                  "(release_transport, asyncio.wait's completion callback) run only after the task finished, and "
+                  "asyncio.wait as a counter. Proved for EVERY schedule: any choice of the next runnable task action or "
+                  "callback, every await returning normally, failing or delivering a cancellation, any command list from "
+                  "the layer (induction over the schedule, invariants). The model is tied to the real "
+                  "ProxyConnectionHandler running on a virtual-time asyncio loop by trace inclusion: the schedule the real "
+                  "loop chose — every hook fired/returned, semaphore event, connect, read, server_event with its commands, "
+                  "writer.close, task end and every release_transport done-callback — is replayed in the compiled model, "
+                  "and model state = real state at every quiescent point.")
+    level_note = ("trusted: Lean kernel; ONE asyncio fact is still assumed, not modelled: Semaphore.acquire admits fewer than "
+                  "N holders (asyncio.Semaphore's waiter hand-off is not transcribed). The done-callback/asyncio.wait "
+                  "scheduler is explicit in the model; what it takes from asyncio is that a future's callbacks run after "
+                  "completion in registration order — the completion callback of asyncio.wait is not observable from "
+                  "outside and is placed in the replayed schedule right behind the observed release_transport callback. "
+                  "handle_client itself is assumed not to be cancelled from outside; no_transports_after_return assumes the "
+                  "layer opens no connection after handle_client has collected the transports to wait for (ghost flag "
+                  "lateOpen; real layers are not proved to obey it; an example shows the hypothesis is needed); GC of "
+                  "writers, real sockets and the event loop's selector are out of scope; the tie is differential "
                   "(systematic cancellation/disconnect injection at every step of base scenarios + random scripts).")
     technique = "Lean 4 proof (invariants over all schedules of a task system) + trace-inclusion correspondence on a virtual-time loop"
     rule = ("environment scripts over {layer commands carried by client/server data, connect ok/refuse, hook release, "
